@@ -67,6 +67,9 @@ type sim struct {
 	closedCh <-chan struct{}
 	maxOut   int
 	held     []<-chan struct{} // Done channels handed out while open: what a waiter that called Done() earlier holds
+	// blind: nobody looks at the deadline (Done / Err / Deadline are not called) during this step; the model advances all
+	// the same and the oracle runs at the next step that looks. An expiry nobody watched is an expiry all the same.
+	blind bool
 }
 
 func newSim() *sim {
@@ -90,10 +93,14 @@ var past = time.Now().Add(-time.Hour)
 
 // apply returns (applicable, violation key, description)
 func (s *sim) applyRaw(st int) (bool, string, string) {
-	prevClosed := isClosed(s.d.Done())
-	prevCh := s.d.Done()
-	if !prevClosed && (len(s.held) == 0 || s.held[len(s.held)-1] != prevCh) {
-		s.held = append(s.held, prevCh)
+	var prevClosed bool
+	var prevCh <-chan struct{}
+	if !s.blind {
+		prevClosed = isClosed(s.d.Done())
+		prevCh = s.d.Done()
+		if !prevClosed && (len(s.held) == 0 || s.held[len(s.held)-1] != prevCh) {
+			s.held = append(s.held, prevCh)
+		}
 	}
 	switch st {
 	case sZero, sPast, sFutA, sFutB:
@@ -111,7 +118,7 @@ func (s *sim) applyRaw(st int) (bool, string, string) {
 		s.last = st
 		s.lastTime = t
 		s.fired = false
-		if prevClosed && st != sPast {
+		if !s.blind && prevClosed && st != sPast {
 			if s.d.Done() == prevCh {
 				return true, "deadline:channel-reused", "Set after expiry returned the already closed Done channel"
 			}
@@ -138,6 +145,9 @@ func (s *sim) applyRaw(st int) (bool, string, string) {
 		}
 		s.out = s.out[:len(s.out)-1]
 		s.cb()
+	}
+	if s.blind {
+		return true, "", ""
 	}
 	// oracle
 	closed := isClosed(s.d.Done())
@@ -174,9 +184,11 @@ func (s *sim) applyRaw(st int) (bool, string, string) {
 	return true, "", ""
 }
 
-func runSeq(seq []int, r *res.Result) (int, string, string, *sim) {
+// runSeq: lookLast = the deadline is looked at only during the last step (everything before happens unobserved).
+func runSeq(seq []int, r *res.Result, lookLast bool) (int, string, string, *sim) {
 	s := newSim()
 	for i, st := range seq {
+		s.blind = lookLast && i < len(seq)-1
 		ok, key, desc := s.applyFix(st)
 		if !ok {
 			return i, "skip", "", s
@@ -223,18 +235,29 @@ func fakeMode(tier string, seed int64, shard, nshard int, r *res.Result) {
 			if int(count)%nshard != shard {
 				return
 			}
-			n, key, desc, s := runSeq(seq, r)
-			if key == "skip" {
-				return
-			}
-			r.Eval(1)
-			r.Max("max_outstanding_callbacks", int64(s.maxOut))
-			r.Count("stop_false_paths", s.ft.stopFalse)
-			r.Count("stop_true_paths", s.ft.stopTrue)
-			if key != "" {
-				viol[key]++
-				if viol[key] <= 2 {
-					r.Violate(key, fmt.Sprintf("after %v: %s", names(seq[:n+1]), desc), map[string]interface{}{"steps": names(seq[:n+1])})
+			for _, lookLast := range []bool{false, true} {
+				n, key, desc, s := runSeq(seq, r, lookLast)
+				if key == "skip" {
+					return
+				}
+				r.Eval(1)
+				r.Max("max_outstanding_callbacks", int64(s.maxOut))
+				r.Count("stop_false_paths", s.ft.stopFalse)
+				r.Count("stop_true_paths", s.ft.stopTrue)
+				if lookLast {
+					r.Count("sequences_observed_at_the_end_only", 1)
+				}
+				if key != "" {
+					viol[key]++
+					if viol[key] <= 2 {
+						w := map[string]interface{}{"steps": names(seq[:n+1])}
+						if lookLast {
+							w["look"] = "last"
+							desc += " (the deadline was not looked at before the last step)"
+						}
+						r.Violate(key, fmt.Sprintf("after %v: %s", names(seq[:n+1]), desc), w)
+					}
+					break
 				}
 			}
 			return
@@ -257,20 +280,24 @@ func fakeMode(tier string, seed int64, shard, nshard int, r *res.Result) {
 	for i := 0; i < n/nshard; i++ {
 		s := newSim()
 		var done []int
+		var looks []bool
+		pBlind := []int{0, 2, 4}[i%3] // a third of the sequences look at every step, the others at every second / fourth on average
 		for j := 0; j < 40; j++ {
 			st := rng.Intn(nSteps)
 			if rng.Intn(3) == 0 {
 				st = sFire
 			}
+			s.blind = pBlind > 0 && rng.Intn(pBlind) != 0
 			ok, key, desc := s.applyFix(st)
 			if !ok {
 				continue
 			}
 			done = append(done, st)
+			looks = append(looks, !s.blind)
 			if key != "" {
 				viol[key]++
 				if viol[key] <= 2 {
-					r.Violate(key, fmt.Sprintf("after %v: %s", names(done), desc), map[string]interface{}{"steps": names(done)})
+					r.Violate(key, fmt.Sprintf("after %v: %s", names(done), desc), map[string]interface{}{"steps": names(done), "looks": looks})
 				}
 				break
 			}
@@ -288,15 +315,21 @@ func fakeMode(tier string, seed int64, shard, nshard int, r *res.Result) {
 	}
 }
 
-func replaySeq(namesIn []string, r *res.Result) {
+func replaySeq(namesIn []string, look string, looks []bool, r *res.Result) {
 	idx := map[string]int{}
 	for i, n := range stepNames {
 		idx[n] = i
 	}
 	s := newSim()
 	var done []int
-	for _, n := range namesIn {
+	for k, n := range namesIn {
 		st := idx[n]
+		s.blind = false
+		if look == "last" {
+			s.blind = k < len(namesIn)-1
+		} else if k < len(looks) {
+			s.blind = !looks[k]
+		}
 		ok, key, desc := s.applyFix(st)
 		if !ok {
 			continue
@@ -431,13 +464,15 @@ func main() {
 	replay := flag.String("replay", "", "")
 	flag.Parse()
 	r := res.New("C09")
-	r.Rule = "fake-timer part: all sequences over {SetZero, SetPast, SetFutureA, SetFutureB, Fire, RunOldest, RunNewest} to depth 7 (quick) / 9 (thorough) plus random sequences of length 40, the package's timer replaced by a harness fake so that dispatched-but-not-run callbacks are explicit; model {last Set, fired, outstanding} compared after every step (never early, never stale, past => closed, fired and nothing outstanding => closed, fresh channel after expiry, Err <=> closed, Deadline()); real-timer part: back-to-back Sets of zero/past/near(30-300us)/far with observation of Done; distinct = distinct applicable step sequences"
+	r.Rule = "fake-timer part: all sequences over {SetZero, SetPast, SetFutureA, SetFutureB, Fire, RunOldest, RunNewest} to depth 7 (quick) / 9 (thorough) every sequence run twice (the deadline looked at after every step / only during the last step), plus random sequences of length 40 in which a step is looked at always, every second or every fourth time on average, the package's timer replaced by a harness fake so that dispatched-but-not-run callbacks are explicit; model {last Set, fired, outstanding} compared after every step (never early, never stale, past => closed, fired and nothing outstanding => closed, fresh channel after expiry, Err <=> closed, Deadline()); real-timer part: back-to-back Sets of zero/past/near(30-300us)/far with observation of Done; distinct = distinct applicable step sequences"
 	r.Assumptions = []string{"the fake implements time.AfterFunc semantics for Stop/Reset return values", "timer_js.go cannot run here", "pending is a uint8: more than 255 outstanding callbacks are outside the explored range"}
 	if *replay != "" {
 		b, _ := os.ReadFile(*replay)
 		var w struct {
 			Witness struct {
 				Steps []string `json:"steps"`
+				Look  string   `json:"look"`
+				Looks []bool   `json:"looks"`
 			} `json:"witness"`
 		}
 		if err := json.Unmarshal(b, &w); err != nil {
@@ -445,7 +480,7 @@ func main() {
 			os.Exit(2)
 		}
 		r.Eval(1)
-		replaySeq(w.Witness.Steps, r)
+		replaySeq(w.Witness.Steps, w.Witness.Look, w.Witness.Looks, r)
 		r.Write(*out)
 		return
 	}
